@@ -2273,36 +2273,51 @@ static int add_mapping_entry(vnaproperty_yaml_t *vymlp, int t_map,
  *   @rootptr:  address of property tree root
  *   @vp_node:  yaml node cast to void pointer
  */
+/*
+ * yaml_import_path_t: the collections enclosing the node being imported
+ */
+typedef struct yaml_import_path {
+    const yaml_node_t *yip_node;
+    const struct yaml_import_path *yip_up;
+} yaml_import_path_t;
+
 static int yaml_import(vnaproperty_yaml_t *vymlp,
-	vnaproperty_t **rootptr, yaml_node_t *node, long depth);
+	vnaproperty_t **rootptr, yaml_node_t *node,
+	const yaml_import_path_t *up);
 
 int _vnaproperty_yaml_import(vnaproperty_yaml_t *vymlp,
 	vnaproperty_t **rootptr, void *vp_node)
 {
-    return yaml_import(vymlp, rootptr, vp_node, 0);
+    return yaml_import(vymlp, rootptr, vp_node, NULL);
 }
 
 /*
  * yaml_import: recursive part of _vnaproperty_yaml_import
- *   @depth: number of enclosing collections
+ *   @up: the enclosing collections, innermost first
  */
 static int yaml_import(vnaproperty_yaml_t *vymlp,
-	vnaproperty_t **rootptr, yaml_node_t *node, long depth)
+	vnaproperty_t **rootptr, yaml_node_t *node,
+	const yaml_import_path_t *up)
 {
     yaml_document_t *document = vymlp->vyml_document;
+    yaml_import_path_t here;
 
     /*
-     * An alias may refer to a collection that contains it.  A path
-     * through a document without such a cycle cannot be longer than the
-     * number of nodes.
+     * An alias may refer to a collection that contains it: refuse the
+     * node if it is one of its own ancestors.
      */
-    if (depth > document->nodes.top - document->nodes.start) {
-	_vnaproperty_yaml_error(vymlp, VNAERR_SYNTAX,
-		"%s (line %ld) error: alias refers to a collection "
-		"that contains it", vymlp->vyml_filename,
-		(long)node->start_mark.line + 1);
-	return -1;
+    for (const yaml_import_path_t *yipp = up; yipp != NULL;
+	    yipp = yipp->yip_up) {
+	if (yipp->yip_node == node) {
+	    _vnaproperty_yaml_error(vymlp, VNAERR_SYNTAX,
+		    "%s (line %ld) error: alias refers to a collection "
+		    "that contains it", vymlp->vyml_filename,
+		    (long)node->start_mark.line + 1);
+	    return -1;
+	}
     }
+    here.yip_node = node;
+    here.yip_up = up;
     switch (node->type) {
     case YAML_SCALAR_NODE:
 	/*
@@ -2367,7 +2382,7 @@ static int yaml_import(vnaproperty_yaml_t *vymlp,
 		    }
 		    goto out;
 		}
-		if (yaml_import(vymlp, subtree, value, depth + 1) == -1) {
+		if (yaml_import(vymlp, subtree, value, &here) == -1) {
 		    goto out;
 		}
 	    }
@@ -2398,7 +2413,7 @@ static int yaml_import(vnaproperty_yaml_t *vymlp,
 			    vymlp->vyml_filename, strerror(errno));
 		    goto out;
 		}
-		if (yaml_import(vymlp, subtree, value, depth + 1) == -1) {
+		if (yaml_import(vymlp, subtree, value, &here) == -1) {
 		    goto out;
 		}
 	    }
